@@ -18,6 +18,9 @@
 //!                           of the first / second one's node is delayed by d0 / d1 ms
 //!        | E/<node>/<p|e|s|i>/<s>/<arg>
 //!        | F/<node>/<resp>                                        (forced answer to the next user request at node)
+//!   in a MIXED cluster the nodes without the extension start at schema version 1 (where the statement has one), so
+//!   that the column specs of the freshly prepared statement show which kind of node Session::prepare took it from;
+//!   the impl output then starts with J/<cols of stmt 0>;<cols of stmt 1>;...  (as observed right after the prepares)
 //!   obs  = O/<node>/<req>><resp>;<req>><resp>.../<outcome>        one per X / B op, in order; an I op gives OI/<k> followed by k of them (one per page)
 //!   cols = '-' | name.t+name.t...   t in i b t x ;  ob = '~' none | '-' empty | hex ; o = '~' | hex
 //!   resp = r:<meta>:<paging ob>:<nrows>:<cells>:<enc cols> | v | u:<id> | d:<code> | P:<id>:<mid ob>:<cols> | z
@@ -886,6 +889,19 @@ async fn run_case(c: Case) -> String {
     while cluster.connections(None).len() < want && t.elapsed() < Duration::from_secs(10) {
         tokio::time::sleep(Duration::from_millis(2)).await;
     }
+    let mixed = c.exts.iter().any(|e| *e != c.exts[0]);
+    if mixed {
+        let mut g = srv.lock().unwrap();
+        for n in 0..c.nnodes {
+            if !c.exts[n] {
+                for st in 0..ns {
+                    if c.stmts[st].vers.len() >= 2 {
+                        g.nodes[n].ver[st] = 1;
+                    }
+                }
+            }
+        }
+    }
     // prepare every statement: PREPARE goes to every node whose pool is connected; repeat until
     // every node has seen it (a pool may still be connecting on a loaded machine)
     let mut prepared: Vec<PreparedStatement> = vec![];
@@ -912,9 +928,20 @@ async fn run_case(c: Case) -> String {
         }
     }
     srv.lock().unwrap().logging = true;
+    let mut obs: Vec<String> = vec![];
+    if mixed {
+        let inits: Vec<String> = prepared
+            .iter()
+            .map(|p| {
+                let g = p.get_current_result_set_col_specs();
+                let cols: Vec<Col> = g.get().iter().map(|c| col_of_spec(c.name(), c.typ())).collect();
+                enc_cols(&cols)
+            })
+            .collect();
+        obs.push(format!("J/{}", inits.join(";")));
+    }
     cluster.drain_trace();
 
-    let mut obs: Vec<String> = vec![];
     let mut oi = 0usize;
     while oi < c.ops.len() {
         let o = &c.ops[oi];
